@@ -42,6 +42,9 @@ CLAIMED = {
  "C20": ("§7 C20", "Lean 4 theorems for ALL result codes on the decision every operation takes on a decoded abort (never success; identifies the code; exactly the three documented translations); kernel-decided equality of the translated code/message table with the specification's + 256 codes x every operation/sub-exchange x abort position differential check",
          "Proved: `errorTable_eq_spec` (decide, 79 rows), `readCard_abort`, `begin_abort`, `commit_abort`, `reversal_abort`, `init_abort`, `setTid_abort`, `eod_abort`, `documented_codes`, `abort_never_success`. That an abort packet reaches the decision for every position in the reply script is carried by the sequence model (C05) and the correspondence: 256 codes x {read card, begin, commit, cancel, pending reversal, end-of-day while going idle, configure: system info, set terminal id, initialisation, pending reversal, end-of-day} x positions; plus an identification check on the implementation's results alone.",
          "Trusted: as C07."),
+ "C11": ("§7 C11", "Lean 4 theorems: kernel-decided equality/distinctness of the translated path->file-id table, the answer block is exactly content[off..off+block) (length, element-wise, empty at EOF, tiling), bad requests never send data, valid request answered with id/offset/block, kernel-evaluated byte-exact answer + differential check of the real upload over generated payload directories",
+         "Proved for every file content, offset and block size: `block_exact`, `block_empty_at_eof`, `blocks_tile`; `unknown_id_fails`, `missing_id_fails`, `valid_request_answer`, `empty_directory`; `fileIds_eq_spec`, `fileIds_distinct` (decide). Correspondence: 300 (thorough 1500) payload directories (subsets of the 21 recognised paths + unrelated files, sizes 0..70000/200 KiB) x block sizes x request scripts (random, sequential, round-robin over files, continuing in another file, at/after EOF, unknown ids, missing fields) ending in completion/abort/EOF; real WriteFile::into_stream vs model vs packets assembled by the reference encoder from the files' bytes.",
+         "Trusted: Lean kernel, translator (file-id table), hand model of WriteFile::into_stream validated by differential execution, read_at semantics on regular files, the announcement is compared as a set (sorted by id)."),
  "C14": ("§7 C14", "Lean 4 theorems: suffix-independence of every delimiting length style, of the generic tag/length/data triple, of every command decoder and nested container, for arbitrary (not only canonical) inputs + differential correspondence with suffixes",
          "Proved for all inputs, all schemas: if a packet (APDU) or a field under fixed/LLVAR/LLLVAR/BER-TLV length decodes, then with any bytes appended it decodes to the same value and the remainder is the old remainder followed by exactly those bytes (`cmd_suffix`, `field_suffix`, `deserTagged_append`, `lenDe_append`). Correspondence: canonical packets of all command types x suffixes (all 256 single bytes, valid packets, random) and junk spliced into the body behind the last container.",
          "Trusted: Lean kernel, hand model of lib.rs/length.rs/derive validated by differential execution, harness."),
